@@ -113,18 +113,38 @@ class Ctx:
     def gentry(self, name):
         return self.eng.gread(self._entry, name)
 
+    def _gone(self, name):
+        """a contract clause names a local the function does not have (any more): its clauses
+        about that local do not apply -- the function's obligations become weak (10.3), never a
+        violation on the solver's word alone"""
+        names = getattr(self.eng, 'cur_local_names', None)
+        if names is not None and name not in names:
+            self.eng.renamed_locals.add(name)
+            return True
+        return False
+
     def v(self, name):
         """current value of a local (loop invariants)"""
+        if name not in self._new.env and self._gone(name):
+            raise Unsupported('the contract refers to the local %r, which the function does not '
+                              'have' % name)
         x = self._new.env[name]
         return x.t if isinstance(x, Sym) else x
 
     def val(self, name):
+        if name not in self._new.env:
+            self._gone(name)
         return self._new.env.get(name)
 
     def has(self, name):
+        if name not in self._new.env:
+            self._gone(name)
         return name in self._new.env
 
     def oldv(self, name):
+        if name not in self._old.env and self._gone(name):
+            raise Unsupported('the contract refers to the local %r, which the function does not '
+                              'have' % name)
         x = self._old.env[name]
         return x.t if isinstance(x, Sym) else x
 
@@ -1687,6 +1707,20 @@ class Engine:
             args[fi.kwarg] = con.params.get(fi.kwarg)
         self.cur_args = args
         st.env = dict(args)
+        # every name the function binds (for Ctx._gone: contract clauses about renamed locals)
+        self.cur_local_names = set(args) | set(
+            n.id for n in ast.walk(fi.node) if isinstance(n, ast.Name)
+            and isinstance(n.ctx, (ast.Store, ast.Del))) | set(
+            a.arg for a in ast.walk(fi.node) if isinstance(a, ast.arg))
+        for q_, fi_ in self.prog.funcs.items():
+            # (loops of inlined callees are annotated through this contract as well)
+            if getattr(con, 'inlined_loops', None) and self.prog.short(q_) in con.inlined_loops:
+                self.cur_local_names |= set(
+                    n.id for n in ast.walk(fi_.node) if isinstance(n, ast.Name)
+                    and isinstance(n.ctx, (ast.Store, ast.Del))) | set(
+                    a.arg for a in ast.walk(fi_.node) if isinstance(a, ast.arg))
+        self.renamed_locals = set(n for n in (con.local_types or {})
+                                  if n not in self.cur_local_names)
         if 'alloc' in self.GHOST_SORTS:
             for p_, v_ in args.items():
                 self.assume_alloc(st, v_)
@@ -1808,6 +1842,10 @@ class Engine:
                                       'exc.%s.' % es.cls)
             else:
                 raise Unsupported('loop control escaping function')
+        if self.renamed_locals:
+            for o in self.obls:
+                o.extra = dict(o.extra or {}, weak_path=True,
+                               contract_locals_missing=sorted(self.renamed_locals))
         return self.obls
 
     def result_term(self, res, con, st):
